@@ -10,18 +10,17 @@ NEEDS = ('rqmc', 'rq')
 def run(tier, seed):
     res = common.Result('model_checking')
     args = ['4', '2', '1', '1'] if tier == 'quick' else ['5', '2', '2', '1']
-    doc = common.run_engine([common.RQMC, 'c04-pairs'] + args)
+    doc = common.run_engine_parts([common.RQMC, 'c04-pairs'] + args)
     common.merge_engine(res, doc)
     cov = res.coverage
     cov['pair_sweep'] = {'bounds': {k: doc[k] for k in ('max_file_len', 'max_context', 'max_fuzz_limit', 'triples', 'files')}, 'outcomes': doc['counters'], 'evaluations': doc['evaluations']}
     try:
-        doc2 = common.run_engine([common.RQMC, 'c04-bfs', '2' if tier == 'quick' else '3'])
+        doc2 = common.run_engine_parts([common.RQMC, 'c04-bfs'] + (['3', '3'] if tier == 'quick' else ['4', '4']))
         common.merge_engine(res, doc2)
         cov['history_bfs'] = {k: doc2[k] for k in ('states', 'transitions', 'max_depth', 'menu_size', 'start_states') if k in doc2}
         cov['traces_validated_against_impl'] = doc2.get('transitions', 0)
-    except common.MachineryError as e:
-        if 'usage' not in str(e):
-            raise
+    except KeyError:
+        raise
     try:
         import wsprops
         wsprops.run_c04(tier, seed, res)
